@@ -6,6 +6,7 @@
 package trzsz
 
 import (
+	"errors"
 	"bytes"
 	"strconv"
 	"sync"
@@ -77,6 +78,8 @@ type vfLink struct {
 	started time.Time
 	lastAt  time.Time
 	applied int // faults that were actually applied inside the stream
+	breakAt int // > 0: the writer's breakAt-th Write call and all later ones fail (see Write)
+	writes  int
 }
 
 func newVfLink(dir string, out func([]byte)) *vfLink {
@@ -85,6 +88,15 @@ func newVfLink(dir string, out func([]byte)) *vfLink {
 
 // Write makes a link an io.Writer for the role that sends into it.
 func (l *vfLink) Write(p []byte) (int, error) {
+	if l.breakAt > 0 {
+		l.mu.Lock()
+		l.writes++
+		broken := l.writes >= l.breakAt
+		l.mu.Unlock()
+		if broken {
+			return 0, errors.New("write: broken pipe") // the connection is gone: this write and every later one fails, nothing is delivered
+		}
+	}
 	l.feed(p)
 	return len(p), nil
 }
